@@ -667,6 +667,58 @@ def run_unique(ctx, mods, sizes, nops, reverse):
     return len(paths)
 
 
+def replay_mass(data):
+    """real API: a diatomic molecule (element Z bonded to carbon, or to oxygen for Z = 6) along the a axis of an orthogonal P1 cell,
+    placed so that the cell face lies midway between its centre of mass by standard atomic weights and by the library's table: the
+    molecule returned by unit_cell_molecules must have its centre of mass (standard weights) inside the cell, up to the shift a
+    relative mass error of MASS_RTOL can cause"""
+    from chmpy.crystal import Crystal, UnitCell, SpaceGroup, AsymmetricUnit
+    from chmpy.core.element import Element
+    from .ref_elements import MASSES, MASS_RTOL
+    z = int(data["Z"])
+    zp = 8 if z == 6 else 6
+    ea, eb = Element[z], Element[zp]
+    d = min(ea.cov + eb.cov, 3.0)
+    a = 12.0
+    ma, mb, la, lb = MASSES[z - 1], MASSES[zp - 1], float(ea.mass), float(eb.mass)
+    f_true, f_lib = mb / (ma + mb), lb / (la + lb)       # centre of mass = x_A + f d
+    mid = 0.5 * (f_true + f_lib) * d
+    bad = []
+    uc = UnitCell.from_lengths_and_angles([a, 9.0, 10.0], [np.pi / 2] * 3)
+    for face in (0.0, a):
+        xa = face - mid
+        cart = np.array([[xa, 4.0, 5.0], [xa + d, 4.0, 5.0]])
+        c = Crystal(uc, SpaceGroup(1), AsymmetricUnit([ea, eb], uc.to_fractional(cart)))
+        mols = c.unit_cell_molecules()
+        if len(mols) != 1 or len(mols[0]) != 2:
+            return False, ["outside the domain: the two atoms are not one molecule"]
+        m = mols[0]
+        w = np.array([MASSES[int(e.atomic_number) - 1] for e in m.elements])
+        com = (np.asarray(m.positions, float) * w[:, None]).sum(axis=0) / w.sum()
+        fr = float(uc.to_fractional(com[None])[0][0])
+        tol = MASS_RTOL * d / a
+        if fr < -tol or fr >= 1 + tol:
+            bad.append("molecule %s-%s: centre of mass (standard atomic weights) at fractional x = %.5f, outside the reference cell (library mass of %s = %s, standard %s)"
+                       % (ea.symbol, eb.symbol, fr, ea.symbol, la, ma))
+    return bool(bad), bad
+
+
+def part_masses(ctx):
+    """the atomic masses Molecule.center_of_mass weighs with are the standard atomic weights (finite table, all 103 rows)"""
+    from chmpy.core.element import Element
+    from .ref_elements import MASSES, MASS_RTOL
+    ctx.stub("centre of mass: the weights are the masses of the library's element table; that these are the standard atomic weights (to %g relative) is checked row by row" % MASS_RTOL)
+    wrong = [z for z in range(1, 104) if abs(float(Element[z].mass) - MASSES[z - 1]) > MASS_RTOL * MASSES[z - 1]]
+    ctx.record("element table: 103 masses agree with the standard atomic weights to %g relative (ground, all rows)" % MASS_RTOL,
+               "holds" if not wrong else "counterexample", nontrivial=True, method="ground instances / enumeration", sample={"Z": wrong[:3]})
+    for z in wrong:
+        ctx.violation("mass:%d" % z, "centre of mass: the library weighs %s with mass %s (standard atomic weight %s)" % (Element[z].symbol, Element[z].mass, MASSES[z - 1]),
+                      {"Z": z}, replay_mass)
+
+
+REPLAY["mass"] = replay_mass
+
+
 # ----------------------------------------------------------------------------------------- run
 def run(ctx):
     from chmpy.crystal.crystal import Crystal
@@ -714,6 +766,7 @@ def run(ctx):
     for sizes, nops in fams:
         for rev in (False, True):
             sections.append(("unique %s x%d %s" % (sizes, nops, rev), uniq_section(sizes, nops, rev)))
+    sections.append(("masses", part_masses))
     from . import c03 as _c03
     sections += _c03.dependency_sections({"slab"})
     ctx.parallel_sections(sections, nproc=16)
